@@ -440,6 +440,79 @@ def decode_bytefield(enc, n, hl):
             H.And(ds.cursor_byte_position == cur + L, ds.cursor_bit_position == 0))
 
 
+# ---- byte fields of any length (P in the length as well): a single raw field of symbolic size is copied by bitstruct
+# ---- byte for byte, so no size has to be enumerated; MIN-MAX-LENGTH, LEADING-LENGTH and END-OF-PDU objects are byte
+# ---- fields whose length is only known from the value or from the message
+@harness(props=["C01", "C02", "C03", "C05", "C08"], strength="P",
+         family=lambda t, s: [{"enc": e, "hl": h} for e in (None, "BCD_P") for h in (True, False)],
+         functions=[DecodeState.extract_atomic_value], covers=["decoded", "too-short", "empty"], assumes=["A-bitstruct"])
+def decode_bytefield_of_any_length(enc, hl):
+    """extract_atomic_value, A_BYTEFIELD of k bytes, k symbolic and unbounded: DecodeError iff the PDU ends before the
+    object, else exactly the k described bytes; the cursor advances by k"""
+    msg = H.bytes("msg")
+    cur = H.int("cur", 0)
+    k = H.int("bytes_in_the_field", 0)
+    ds = DecodeState(coded_message=msg, cursor_byte_position=cur, cursor_bit_position=0)
+    try:
+        v = ds.extract_atomic_value(bit_length=8 * k, base_data_type=DataType.A_BYTEFIELD,
+                                    base_type_encoding=_enc(enc), is_highlow_byte_order=hl)
+    except DecodeError:
+        H.cover("too-short")
+        H.check("C05:decode-error-only-if-the-pdu-ends-before-the-object", cur + k > len(msg))
+        return
+    except Exception:
+        H.check("C05:only-decode-errors-escape", False)
+        return
+    H.cover("empty" if k == 0 else "decoded")
+    H.check("C05:only-decode-errors-escape", True)
+    H.check("C05:truncated-pdu-is-rejected-not-completed", H.Or(k == 0, cur + k <= len(msg)))
+    H.check("C01,C02,C03:decoded-value-is-the-value-of-the-described-bits",
+            H.And(len(v) == k, H.forall(0, k, lambda j: H.byte_at(v, j) == H.byte_at(msg, cur + j))))
+    H.check("C02,C08:cursor-advances-by-the-static-byte-length",
+            H.And(ds.cursor_byte_position == cur + k, ds.cursor_bit_position == 0))
+
+
+@harness(props=["C01", "C02", "C03", "C04", "C08"], strength="P",
+         family=lambda t, s: [{"enc": e, "hl": h} for e in (None, "BCD_UP") for h in (True, False)],
+         functions=[EncodeState.emplace_atomic_value, EncodeState.emplace_bytes], covers=["accepted", "rejected"],
+         assumes=["A-bitstruct"])
+def encode_bytefield_of_any_length(enc, hl):
+    """emplace_atomic_value, A_BYTEFIELD of k bytes, k symbolic and unbounded: accepted iff the value has exactly k
+    bytes; whole view of the PDU and of the used-bit mask afterwards"""
+    es, cur, origin = _encode_state(0)
+    v = H.bytes("v")
+    k = H.int("bytes_in_the_field", 1)
+    old_len = len(es.coded_message)
+    old_msg = W.extend(H.snapshot(es.coded_message), cur + k)
+    old_mask = W.extend(H.snapshot(es.used_mask), cur + k)
+    try:
+        es.emplace_atomic_value(internal_value=v, bit_length=8 * k, base_data_type=DataType.A_BYTEFIELD,
+                                base_type_encoding=_enc(enc), is_highlow_byte_order=hl, used_mask=None)
+    except OdxError:
+        H.cover("rejected")
+        H.check("C04:only-values-of-the-wrong-length-are-rejected", len(v) != k)
+        return
+    except Exception:
+        H.check("C04:rejections-are-odxtools-errors-never-foreign-exceptions", False)
+        return
+    H.cover("accepted")
+    H.check("C04:rejections-are-odxtools-errors-never-foreign-exceptions", True)
+    H.check("C01,C04:accepted-implies-exact-length-no-padding-no-truncation", len(v) == k)
+    new, new_mask = es.coded_message, es.used_mask
+    H.check("C02,C03:pdu-length-is-max-of-old-and-end-of-object",
+            H.And(len(new) == H.ite(old_len > cur + k, old_len, cur + k), len(new_mask) == len(new)))
+    H.check("C02,C03:pdu-holds-the-bytes-in-order",
+            H.forall(cur, cur + k, lambda j: H.byte_at(new, j) == H.byte_at(v, j - cur)), independent=True)
+    H.check("C02,C03:used-mask-gains-exactly-the-claimed-bits",
+            H.forall(cur, cur + k, lambda j: H.byte_at(new_mask, j) == 255), independent=True)
+    H.check("C02,C03:bytes-outside-the-group-unchanged",
+            H.forall(0, len(new), lambda j: H.implies(H.Or(j < cur, j >= cur + k), H.And(
+                H.byte_at(new, j) == _ext(old_msg, j), H.byte_at(new_mask, j) == _ext(old_mask, j)))),
+            independent=True)
+    H.check("C02,C08:cursor-advances-by-the-static-byte-length",
+            H.And(es.cursor_byte_position == cur + k, es.cursor_bit_position == 0))
+
+
 STRING_COMBOS = [("A_ASCIISTRING", None), ("A_ASCIISTRING", "ISO_8859_1"), ("A_ASCIISTRING", "ISO_8859_2"),
                  ("A_ASCIISTRING", "WINDOWS_1252"), ("A_UTF8STRING", None), ("A_UTF8STRING", "UTF8"),
                  ("A_UNICODE2STRING", None), ("A_UNICODE2STRING", "UCS2")]
